@@ -371,6 +371,73 @@ def replay_cfg(out, prop, tier, seed, cfgname, max_len=120):
 def ctl_model(out, prop, tier, seed):
     for cfg in (QUICK if tier == "quick" else THOROUGH)[prop]:
         replay_cfg(out, prop, tier, seed, cfg)
+    if tier == "thorough":
+        sim_replay(out, prop, tier, seed)
+
+
+# ------------------------------------------------------------------------------------------------
+# beyond the exhaustive bound: TLC -simulate on a wider configuration (spec/Sim_ClockCtl.tla), every simulated
+# behaviour replayed on the real wrapper
+# ------------------------------------------------------------------------------------------------
+SIM_CFG = _c(N=3, MinAgree=2, StepThresh=0, SBwd2=12, Fwd2=8, Bwd2=8, Acc2=20, MaxSamples=2, Ghosts=True, Readd=True,
+             OffPos=[0, 1, 2, 3, 5], OffNeg=[1, 2, 4], LeapVals=["none", "59", "61", "unknown"], Wides=[False, True],
+             MaxChan=4, Bound=12, UsableVals=[True, False])
+
+
+def sim_replay(out, prop, tier, seed):
+    num, depth = (150, 60) if tier == "quick" else (3000, 80)
+    wd = vf.workdir("ClockCtl_sim")
+    cf = os.path.join(wd, "Sim_ClockCtl_%s.cfg" % prop)
+    with open(cf, "w") as f:
+        f.write("CONSTANTS\n" + "".join("  %s = %s\n" % (k, _tla(v)) for k, v in SIM_CFG.items()))
+        f.write("INIT SimInit\nNEXT SimNext\nCHECK_DEADLOCK FALSE\nINVARIANTS SimPrint\n")
+    # the cone table does not depend on the constants' values
+    table = {}
+    walks, cur = [], None
+
+    init = []
+
+    def sink(tag, obj):
+        # TLC checks the "invariant" on the initial state once, then on every state it moves into; a new behaviour
+        # starts where a step does not continue from the previous one
+        nonlocal cur
+        if tag == "SINIT":
+            init.append(vf.key(obj))
+        elif tag == "STEP":
+            if cur is None or not cur or vf.key(cur[-1]["post"]) != vf.key(obj["pre"]):
+                if init and vf.key(obj["pre"]) != init[0]:
+                    cur = None      # (cannot happen: every behaviour starts in the initial state)
+                    return
+                cur = []
+                walks.append(cur)
+            cur.append(obj)
+    res = vf.run_tlc("Sim_ClockCtl", cf, workers=1, sim=(num, depth), seed=seed, timeout=1500, tags=("SINIT", "STEP"), line_sink=sink,
+                     coverage=False, name="Sim_ClockCtl")
+    walks = [w for w in walks if w]
+    if not walks:
+        raise vf.ToolError("simulation produced no behaviour")
+    # cone table: printed by the generator of any bounded configuration
+    g, _, _ = vf.collect_graph("MC_ClockCtl", "Gen_ClockCtl_ChanG.cfg", workers=8, timeout=600)
+    cones_by_ck = {}
+    for (_, _, rec) in g.edges:
+        cones_by_ck.setdefault(rec["ck"], rec["cones"])
+    wf = os.path.join(wd, "walks_%s.ndjson" % prop)
+    rf = os.path.join(wd, "results_%s.ndjson" % prop)
+    vf.write_ndjson(wf, [{"id": n, "walk": [{"act": e["act"], "post": e["post"], "out": e["out"]} for e in w]} for n, w in enumerate(walks)])
+    vf.run_harness(CRATE, TEST, {"mode": "replay", "cfg": SIM_CFG, "input": wf, "output": rf, "seed": seed}, timeout=3000)
+    results = vf.read_ndjson(rf)
+    c = ClockCtl()
+    steps = 0
+    for r in results:
+        steps += r["steps_run"]
+        if r["fail"] is not None:
+            f = r["fail"]
+            e = walks[r["id"]][f["step"]]
+            rec = dict(e)
+            rec["cones"] = cones_by_ck.get(e["ck"], {})
+            c.attribute(out, prop, "Sim", rec, f, [x["act"] for x in walks[r["id"]][:f["step"] + 1]], "replay")
+    out.add("simulated_behaviours_replayed", len(walks))
+    out.add("simulated_steps_replayed", steps)
 
 
 # ------------------------------------------------------------------------------------------------
